@@ -51,7 +51,7 @@ ASSUMPTIONS = ["recursion limit, OS path limits and memory are runtime behaviour
 LEVEL_TEXT = ("Proof (Coq) over tables regenerated from the source on every run: every call site of a raising callee in the "
               "package is out of scope, whitelisted with a justification, or checked - each class of "
               "raises(callee) is caught by an enclosing handler or declared to escape to call sites that are themselves checked "
-              "(C01_sites_covered, C01_site_check_sound, C01_raise_statements_declared, C01_tables_consistent); component totality in small models: max() in "
+              "(C01_sites_covered_partial with C01_sites_covered_refuted for the open sites, C01_site_check_sound, C01_raise_statements_declared, C01_tables_consistent); component totality in small models: max() in "
               "update_section_level_state is never over an empty set, and {include}/substitution re-entrancy is bounded by the "
               "number of distinct keys (C01_core_total, with the two refutations of the unguarded variants). Tie: the "
               "regenerated tables plus fault-injection correspondence against the implementation.")
@@ -80,17 +80,17 @@ def coq_prediction_table():
     """Evaluate Exc.ExcFlow.prediction_table with coqc and parse it."""
     d = common.BUILD / "c01"
     d.mkdir(parents=True, exist_ok=True)
-    (d / "predict.v").write_text("From Coq Require Import String.\nFrom MV Require Import Exc.ExcFlow.\nOpen Scope string_scope.\n"
-                                 "Set Printing Width 1000000.\nEval vm_compute in prediction_table.\n")
+    (d / "predict.v").write_text("From Coq Require Import String List.\nFrom MV Require Import Gen.ExcFlow.\nFrom MV Require Import Exc.ExcFlow.\nOpen Scope string_scope.\n"
+                                 "Set Printing Width 1000000.\nSet Printing Depth 1000000.\nEval vm_compute in (map site_lines sites).\n")
     with common.BuildLock():
-        rc, out = sh(f"coqc -Q {COQ} MV -o {d}/predict.vo {d}/predict.v", cwd=d, timeout=300)
+        rc, out = sh(f"ulimit -s unlimited 2>/dev/null; coqc -Q {COQ} MV -o {d}/predict.vo {d}/predict.v", cwd=d, timeout=300)
     if rc != 0:
         raise RuntimeError("coqc predict.v failed: " + out[-1500:])
-    m = re.search(r'=\s*"(.*)"\s*:\s*string', out, re.S)
-    if not m:
+    strings = re.findall(r'"((?:[^"]|"")*)"', out)
+    if not strings:
         raise RuntimeError("prediction table not found in coqc output: " + out[-500:])
     rows = []
-    for ln in m.group(1).replace("\n", "").split(";"):
+    for ln in "".join(strings).replace("\n", "").replace('""', '"').split(";"):
         if not ln.strip():
             continue
         f = ln.split("|")
@@ -146,7 +146,7 @@ myst:
 ## Second
 
 Para *em* **strong** `code`{l=python} [url](http://x.org/p?q#f) [wiki](wiki:Page#frag) <wiki:Auto> [inv](inv:k:py:func#f) <inv:#f>
-[anchor](#second) [unknown](other.md) ![img](a.png){w=10px h=2em a=left #iid .c} {abbr}`x (y)` {{ s }} {{ s|upper }} [^n] [^1] H~2~O
+[anchor](#second) [unknown](other.md) <path:a.png> [proj](project:other.md) [projx](project:x.md#x) ![img](a.png){w=10px h=2em a=left #iid .c} {abbr}`x (y)` {{ s }} {{ s|upper }} [^n] [^1] H~2~O
 www.x.org a@b.co
 
 {{ s }}
@@ -365,8 +365,14 @@ class Injector:
             return False
         if callee == "zlib.decompress" and expr.startswith("decompressor"):
             return False
+        if callee == "env.relfn2path":
+            from sphinx.environment import BuildEnvironment
+            self.patch_attr(BuildEnvironment, "relfn2path")
+            return True
+        if callee.startswith(("subscript", "list.remove")):
+            return False
         if callee in ("bytes.decode", "stream.read", "list.index", "sorted", "HTMLParser.feed", "domain.resolve", "events.emit",
-                      "env.relfn2path", "state.nested_parse", "rst.parse", "validator", "lexer.init"):
+                      "state.nested_parse", "rst.parse", "validator", "lexer.init"):
             if callee == "lexer.init":
                 self.patch_global(module, "Lexer")
                 return True
@@ -532,6 +538,53 @@ def _record_worker(job):
     return {"ok": r["ok"], "sig": r.get("sig"), "seen": [qual(c) for c in seen], "mros": [[qual(a) for a in c.__mro__] for c in seen]}
 
 
+TRANSFORM_DOCS = [
+    "a[^x] b[^1] c[^y] d[^x]\n\n[^y]: Y\n[^x]: X\n[^1]: one\n[^u]: unused\n[^2]: unused two\n",
+    "(t1)=\n# A\n\n(t2)=\n(t3)=\npara\n\n(d)=\nTerm\n: Def\n\n(f)=\n:field: v\n\n[](#t1) [x](#t2) [](#t3) [](#d) [](#f) [](#a) [](#zz) [y](#zz){.c #i}\n\n"
+    "```{eval-rst}\n.. _ind: t1_\n.. _ext: http://x.org\n\n.. [#auto] rst footnote\n```\n\n[](#ind) [](#ext)\n\n> ## rubric {#rub}\n\n[](#rub)\n\n```{figure} a.png\n:name: fig\n\nCaption\n```\n\n[](#fig)\n",
+    "<b>raw</b>\n\n```{raw} html\n<i>x</i>\n```\n",
+]
+
+
+def _coverage_worker(_):
+    """Which transform-phase subscript sites are executed (without raising) by the driver documents: lines of
+    transforms.py / Parser.parse from which docutils' Element.__getitem__ / __delitem__ is called."""
+    from docutils import nodes
+
+    from gen.c01_run import run_case
+    hits = {}
+    originals = {}
+
+    def wrap(name):
+        orig = getattr(nodes.Element, name)
+        originals[name] = orig
+
+        def w(self, *a):
+            fr = sys._getframe(1)
+            fn = fr.f_code.co_filename.replace("\\", "/")
+            if "/myst_parser/" in fn:
+                hits[(fn.split("/myst_parser/", 1)[1], fr.f_lineno)] = hits.get((fn.split("/myst_parser/", 1)[1], fr.f_lineno), 0) + 1
+            return orig(self, *a)
+        setattr(nodes.Element, name, w)
+    for nm in ("__getitem__", "__delitem__"):
+        wrap(nm)
+    try:
+        oks = []
+        for fe in ("docutils", "sphinx"):
+            for k, t in enumerate(TRANSFORM_DOCS):
+                st = {"myst_enable_extensions": ["deflist", "fieldlist", "attrs_inline"], "myst_heading_anchors": 2}
+                if fe == "docutils" and k == 3:
+                    st["raw_enabled"] = False
+                r = run_case({"fe": fe, "text": t, "settings": st, "files": {}, "name": "index.md"}, timeout=60)
+                oks.append(bool(r["ok"]))
+            c = kitchen_case(fe)
+            oks.append(bool(run_case(c, timeout=60)["ok"]))
+    finally:
+        for nm, orig in originals.items():
+            setattr(nodes.Element, nm, orig)
+    return {"hits": [[f, ln, n] for (f, ln), n in hits.items()], "ok": oks}
+
+
 def parse_raises():
     """callee -> class list, read from the Coq source (data only; the predictions come from coqc)."""
     txt = (COQ / "Exc" / "ExcFlow.v").read_text()
@@ -599,6 +652,21 @@ def _corr(ctx):
             ctx.disagree("fault injection: outcome differs from predict(site, class)",
                          {"kind": "inject", "site": {k: r[k] for k in ("file", "func", "callee", "idx")}, "cls": r["cls"], "fe": res["fe"]},
                          {"document_returned": impl_covered, "sig": res.get("sig")}, {"predict_covered": r["predict"], "status": r["status"]})
+    # transform-phase sites are whitelisted by invariants of docutils' node attributes: record that the driver documents
+    # execute them (through Element.__getitem__ / __delitem__) without an exception
+    with ProcessPoolExecutor(max_workers=1, mp_context=mp.get_context("fork")) as ex:
+        cov = list(ex.map(_coverage_worker, [0]))[0]
+    hit_lines = {(f, ln) for f, ln, _ in cov["hits"]}
+    tsites = [s for s in sites if s["callee"].startswith("subscript:") and any(k in s["callee"] for k in ("node[", "refnode[", "footnote."))]
+    exercised = [s for s in tsites if any((s["file"].split("myst_parser/", 1)[1], ln) in hit_lines for ln in range(s["line"], s.get("end_line", s["line"]) + 1))]
+    ctx.corr_cases += len(cov["ok"])
+    ctx.count("transform-sites:node-subscripts", len(tsites))
+    ctx.count("transform-sites:exercised-without-exception", len(exercised))
+    if not all(cov["ok"]):
+        ctx.disagree("a transform-phase driver document raised", {"kind": "transform-drivers"}, cov["ok"], "all documents returned")
+    missing = sorted({f'{s["func"]}:{s["callee"]}#{s["idx"]}' for s in tsites} - {f'{s["func"]}:{s["callee"]}#{s["idx"]}' for s in exercised})
+    if missing:
+        ctx.notes.append("transform-phase node subscripts not executed by the driver documents: " + ", ".join(missing))
     if unreached:
         ctx.notes.append("injection sites not reached by the driver documents: " + ", ".join(sorted(set(unreached))[:60]))
     ctx.sample({"injected_pairs": len(jobs), "reached": ctx.counts.get("inject:reached", 0)})
@@ -654,13 +722,18 @@ def fixed_cases():
         {"fe": "docutils", "text": "```{figure} a.png\n[x]: mailto:x\n```\n", "settings": {}},
         {"fe": "docutils", "text": ":{{a}}: x\n", "settings": {"myst_enable_extensions": ["fieldlist", "substitution"], "myst_substitutions": {"a": ""}}},
         {"fe": "docutils", "text": "---\nmyst:\n  substitutions: {a: ''}\n---\n:{{a}}: x\n", "settings": {"myst_enable_extensions": ["fieldlist", "substitution"]}},
-        {"fe": "sphinx", "text": ":::{productionlist}\n:\n:::\n", "settings": {"myst_enable_extensions": ["colon_fence"]}},
+        {"fe": "sphinx", "text": "```{productionlist} x\n```\n", "settings": {}},
+        {"fe": "docutils", "text": "(a)=\n```{eval-rst}\n.. _a:\n.. _b:\n\ntext\n```\n[](#a) [](#b)\n", "settings": {}},
         {"fe": "docutils", "text": "```{target-notes}\n:name: a\n```\n", "settings": {}},
         {"fe": "docutils", "text": "> :::\n>", "settings": {"myst_enable_extensions": ["colon_fence"]}},
         {"fe": "sphinx", "text": "> :::\n>", "settings": {"myst_enable_extensions": ["colon_fence"]}},
         {"fe": "docutils", "text": "```{raw} latex\n:url: ? x\n```\n", "settings": {}},
         {"fe": "sphinx", "text": "{.c}\n> [r]: u\n", "settings": {"myst_enable_extensions": ["attrs_block"]}},
         {"fe": "docutils", "text": "```{line-block}\n\n\nx\n```\n", "settings": {}},
+        {"fe": "sphinx", "text": "[x](a%00b.md)\n", "settings": {}},
+        {"fe": "sphinx", "text": "<path:a%00b>\n", "settings": {}},
+        {"fe": "sphinx", "text": "[x](project:a%00b.md)\n", "settings": {}},
+        {"fe": "docutils", "text": "[x](a%00b.md) <path:a%00b> [x](project:a%00b.md)\n", "settings": {}},
         {"fe": "docutils", "text": "[a](inv://[#x)\n", "settings": {}},
         {"fe": "docutils", "text": "[a](http://[::1)\n", "settings": {"myst_url_schemes": {"http": {"url": "x{{path}}"}}}},
         {"fe": "docutils", "text": "---\nmyst:\n  url_schemes: {http: {url: 'x{{path}}'}}\n---\n<http://[::1>\n", "settings": {}},
